@@ -268,20 +268,39 @@ CLAIMED = {
         "extraction (ExtrOcamlBasic), OCaml document parser, Python document encoder and schema validator, Rust harness.",
    technique="Coq proof (generic serde round trip over translated shapes) + translator + correspondence on real and corrupted JSON"),
  "C10": dict(
-   category="translation_validation",
-   text="Value path: Coq theorems fst_writer_spec / fst_writer_rs_spec (pinned in Properties/C10.v) - the signal fst::SignalWriter builds from "
-        "the delivered changes reports exactly those changes (least kind, equal neighbours once), independent of the order of state kinds "
-        "(every widening by expand_entries is invisible), for bit vectors of width >= 1, reals and strings; the extracted model is run "
-        "against the real writer (hook) on every ordered pair/triple of state kinds x widths 1..40 and random sequences (a genuine "
-        "defect, D2, was found and repaired this way). Container and hierarchy: complete FST files are generated from abstract designs "
-        "(vlib/filegen.py: 1..n value-change blocks with frame / explicit initial values, a time step shared by two blocks, zlib or raw "
-        "streams and time chain, gzip or LZ4 hierarchy with all scope types, 28 variable type codes, directions, aliases, enum tables, "
-        "source locators, VHDL type attributes, every timescale exponent class) and the loaded waveform must print the listing computed "
-        "from the design; every corpus FST with a VCD twin is compared with the VCD load. The FST container decoder is the dependency's "
-        "(fst-reader) and is not modelled in Coq, hence the level.",
+   category="proof",
+   text="The FST container is decoded by the dependency fst-reader, which hands wellen a stream of hierarchy entries with a header, the "
+        "time table and value-change callbacks; everything wellen's fst.rs does with them is modelled and the property's clauses are "
+        "Coq theorems pinned in Properties/C10.v. Hierarchy: fst_design_calls / fst_read_hierarchy_design - an entry stream that renders "
+        "a list of declarations (each scope preceded by its source stems, each variable by its VHDL infos and enum table references, "
+        "path names and enum tables where they occur) yields exactly the builder calls of those declarations: scope and variable kinds, "
+        "directions, component, width, bit range and array scopes, the handle as the signal (aliases share it: var_call_signal), "
+        "the first stem of each kind / first type name / first enum reference (scope_attrs_first, var_attrs_first), resolved as "
+        "known at that point; attributes never reach a later declaration; the conversion tables are translated from the source on every "
+        "run; convert_timescale_spec (exponents -15..9). Values: fst_load_signals_spec - however the callbacks of different signals "
+        "are interleaved (within a time step, across value-change blocks), every requested signal is built from exactly its own "
+        "callbacks in order, each under the index of the first time-table entry not smaller than its time (first_ge_sorted: the first "
+        "entry equal to it, also when a time is listed twice); fst_writer_spec / fst_writer_rs_spec - the signal SignalWriter builds "
+        "reports exactly those changes (least kind, equal neighbours once), independent of the order of state kinds (every widening by "
+        "expand_entries is invisible), for bit vectors of width >= 1, reals and strings. Tie to the code: the harness reads every "
+        "generated FST file and the corpus FST files with fst-reader directly and through wellen; the extracted model, run on the "
+        "dependency's output, must print what wellen reports (hierarchy walk, lookups partition, type names, enum tables, source "
+        "locators, date, version, timescale; every signal of a random subset in a random order); the writer model is run against the "
+        "real writer (hook) on every ordered pair/triple of state kinds x widths 1..40 and random sequences (a genuine defect, D2, was "
+        "found and repaired this way). Oracle for whole files: complete FST files are generated from abstract designs (vlib/filegen.py: "
+        "1..n value-change blocks with frame / explicit initial values, a time step shared by two blocks, zlib or raw streams and time "
+        "chain, gzip or LZ4 hierarchy with all scope types, 28 variable type codes, directions, aliases, enum tables, source locators, "
+        "VHDL type attributes, every timescale exponent class) and the loaded waveform must print the listing computed from the "
+        "design; every corpus FST with a VCD twin is compared with the VCD load.",
    design_ref="DESIGN.md section 6, C10 and sections 12.5, 12.7",
-   note="Trusted: Coq kernel, extraction (ExtrOcamlBasic), OCaml driver, Rust harness, Python generators/oracles incl. the FST file writer. A-fst: the dependency decodes the container correctly (exercised by the generated files, not proved).",
-   technique="Coq proof of the FST value path + extracted-model correspondence; generated FST files vs listing computed from the design; corpus twins"),
+   note="Modelled, not verified: the dependency fst-reader (A-fst: it decodes the container and calls back per signal in time order; "
+        "exercised by the generated files), String::from_utf8_lossy on string values (A-utf8), the hierarchy builder behind the calls "
+        "(C08's model, which keeps neither enum tables nor instantiation locators - those are compared call by call). The extracted "
+        "model is list-based: hierarchies above 700 entries and loads above 40000 callbacks are decided by the file oracle alone. "
+        "Trusted: Coq kernel, extraction (ExtrOcamlBasic), OCaml driver, translator (conversion tables incl. the dependency's enum "
+        "discriminants read from the cargo registry), Rust harness, Python generators/oracles incl. the FST file writer.",
+   technique="Coq proof of fst.rs (hierarchy entries -> builder calls, callback dispatch, SignalWriter) + extracted-model correspondence on "
+             "the dependency's real output; generated FST files vs listing computed from the design; corpus twins"),
  "C11": dict(
    category="translation_validation",
    text="Coq theorems pinned in Properties/C11.v: read_signals_ops - whatever the section bytes are, when the GHW signal section reader "
